@@ -137,6 +137,10 @@ func (r *Router) HandleContext(c *Context) {
 	r.handleHTTPRequest(c)
 	// Notice: don't release the ctx here. It is still used by the caller and is released
 	// by ServeHTTP. Putting it twice hands one ctx to two requests in flight later.
+
+	// the request has been handled by the new handlers chain. stop the chain of the caller:
+	// its Next() loops still count with the length of the old chain, which is gone.
+	c.Abort()
 }
 
 // handle HTTP Request
